@@ -270,3 +270,28 @@ Proof.
     apply (types_correspond P P' id id (fun k => eq_refl) (fun k => eq_refl) Heq cut cut order order' F F' Hne Hne'
              (ordered_funcs_covers pi P order Hpi Eo) (ordered_funcs_covers pi' P' order' Hpi' Eo') H H').
 Qed.
+
+(* the same with a different constant for each program *)
+Theorem reorder_independent2 cut cut' pi pi' P P' :
+  perm_oracle pi -> perm_oracle pi' -> wf P = true -> reordered P P' ->
+  resolve_cut cut pi P <> RErr ETooManyIter -> resolve_cut cut pi P <> RFuel ->
+  resolve_cut cut' pi' P' <> RErr ETooManyIter -> resolve_cut cut' pi' P' <> RFuel ->
+  ((exists F, resolve_cut cut pi P = ROk F) <-> (exists F', resolve_cut cut' pi' P' = ROk F')) /\
+  (forall F F', resolve_cut cut pi P = ROk F -> resolve_cut cut' pi' P' = ROk F' ->
+                forall k, rho_of (fin_types F') k = rho_of (fin_types F) k).
+Proof.
+  intros Hpi Hpi' Hwf Hre Hc Hf Hc' Hf'.
+  destruct (wf_parts P Hwf) as [Hd [Hnd [Hne _]]].
+  pose proof (reorder_wf P P' Hre Hnd Hwf) as Hwf'.
+  destruct (wf_parts P' Hwf') as [Hd' [Hnd' [Hne' _]]].
+  assert (Heq : forall rho, solution P rho <-> solution P' (fun k' => rho (id k'))).
+  { intros rho. apply (reorder_solution P P' Hre Hnd). }
+  split.
+  - rewrite (resolve_exact cut pi P Hpi Hwf Hc Hf). rewrite (resolve_exact cut' pi' P' Hpi' Hwf' Hc' Hf').
+    apply (sat_correspond P P' id id); [reflexivity | exact Heq].
+  - intros F F' H H'. unfold resolve_cut in H, H'. rewrite Hd in H. rewrite Hd' in H'.
+    destruct (ordered_funcs pi P) as [order|] eqn:Eo; [|discriminate].
+    destruct (ordered_funcs pi' P') as [order'|] eqn:Eo'; [|discriminate].
+    apply (types_correspond P P' id id (fun k => eq_refl) (fun k => eq_refl) Heq cut cut' order order' F F' Hne Hne'
+             (ordered_funcs_covers pi P order Hpi Eo) (ordered_funcs_covers pi' P' order' Hpi' Eo') H H').
+Qed.
